@@ -15,18 +15,31 @@ import bash  # noqa
 rnd = random.Random(20260926)
 rb = lambda n: bytes(rnd.getrandbits(8) for _ in range(n))
 
-x = X("asan")
+CONFIG = os.environ.get("XCHECK_CONFIG", "asan")   # e.g. w32: 32-bit words
+x = X(CONFIG)
 counts = {}
 mism = []
+VERBOSE = bool(os.environ.get("XCHECK_VERBOSE"))
 
 
 def ok(name):
     counts[name] = counts.get(name, 0) + 1
 
 
+def _show(v, full):
+    if isinstance(v, (bytes, bytearray)):
+        v = v.hex()
+    elif isinstance(v, tuple):
+        return "(" + ", ".join(_show(u, full) for u in v) + ")"
+    v = str(v)
+    return v if full or len(v) <= 72 else v[:64] + "...(%d chars)" % len(v)
+
+
 def bad(name, **kw):
     mism.append((name, kw))
-    print("MISMATCH", name, {k: (v.hex() if isinstance(v, (bytes, bytearray)) else v) for k, v in kw.items()})
+    first = sum(1 for n, _ in mism if n == name) == 1
+    if first or VERBOSE:
+        print("MISMATCH", name, {k: _show(v, True) for k, v in kw.items()})
 
 
 def cmp(name, model, lib, **kw):
@@ -170,15 +183,29 @@ def sec_bash():
 SECTIONS = {"bash": sec_bash}
 
 
+def new_x():
+    """the build cache entry can disappear when /repo changes under us: rebuild and respawn"""
+    global x
+    import x as xmod
+    xmod._dirs.clear()
+    x = xmod.X(CONFIG)
+
+
 def guarded(name, fn, **kw):
     """run one library case; an executor death (ASSERT, sanitizer) is a reported disagreement"""
-    try:
-        return fn()
-    except Crash as e:
-        bad(name + " CRASH", kind=e.kind, text=e.text[:300], **kw)
-        return None
-    finally:
-        x.reset()
+    for attempt in (0, 1):
+        try:
+            try:
+                return fn()
+            finally:
+                x.reset()
+        except Crash as e:
+            bad(name + " CRASH", kind=e.kind, text=e.text[:400], **kw)
+            return None
+        except (FileNotFoundError, BrokenPipeError):
+            if attempt:
+                raise
+            new_x()
 
 
 # =========================================================================== brng
@@ -466,7 +493,7 @@ def sec_botp():
         junk = (lambda n: x.buf(rb(n))) if unused_ptrs else (lambda n: None)
         err = x.call("botpOCRARand", o, x.buf(suite.encode() + b"\0"), x.buf(key), len(key), x.buf(q), len(q),
                      B(ctr) if f["c"] else junk(8), B(p) if f["p_len"] else junk(32), B(s) if f["s_len"] else junk(64),
-                     (t if t is not None else rnd.choice([0, 5, -1])) & U64)
+                     (t if t is not None else rnd.choice([0, 5])) & U64)
         want = botp.ocra(suite, key, q, ctr, p, s, t)
         cmp("botpOCRARand" + (" (junk unused ptrs)" if unused_ptrs else " (null unused ptrs)"),
             (0, want), (err, cstr(o)), suite=suite, key=key, q=q, ctr=ctr, p=p, s=s, t=t)
@@ -517,6 +544,18 @@ def sec_botp():
         suite = rand_suite()
         guarded("botpOCRAStep", lambda: ocra_steps(suite), suite=suite)
 
+    # botp.h: t != TIME_ERR is required only "if the suite names t"; here it does not
+    for suite in ["OCRA-1:HOTP-HBELT-6:QN08", "OCRA-1:HOTP-HBELT-8:C-QA10-PHBELT-S064"]:
+        def f():
+            fl = botp.ocra_suite_parse(suite)
+            key, q = rb(32), b"12345678"
+            ctr, p, s, _ = ocra_data(fl)
+            o = x.out(fl["digit"] + 1)
+            err = x.call("botpOCRARand", o, x.buf(suite.encode() + b"\0"), x.buf(key), 32, x.buf(q), len(q),
+                         B(ctr), B(p), B(s), U64)
+            cmp("botpOCRARand t=TIME_ERR, suite without T", (0, botp.ocra(suite, key, q, ctr, p, s, None)), (err, cstr(o)), suite=suite)
+        guarded("botpOCRARand t=TIME_ERR, suite without T", f, suite=suite)
+
     # q_len outside 4 .. 2*q_max: ERR_BAD_PARAMS
     for qlen, qmax in [(3, 8), (17, 8), (0, 4), (9, 4), (129, 64)]:
         suite = "OCRA-1:HOTP-HBELT-6:QN%02d" % qmax
@@ -532,11 +571,19 @@ SECTIONS["botp"] = sec_botp
 
 
 def main():
-    want = sys.argv[1:] or list(SECTIONS)
+    import subprocess
+    want = [a for a in sys.argv[1:] if a in SECTIONS] or list(SECTIONS)
+    head = subprocess.run(["git", "-C", "/repo", "log", "--oneline", "-1"], capture_output=True, text=True).stdout.strip()
+    print("library: /repo working tree at", head, "| build config", CONFIG)
     for s in want:
         SECTIONS[s]()
     for k in sorted(counts):
-        print("%-28s %6d agree" % (k, counts[k]))
+        print("%-52s %6d agree" % (k, counts[k]))
+    by = {}
+    for n, _ in mism:
+        by[n] = by.get(n, 0) + 1
+    for k in sorted(by):
+        print("%-52s %6d DISAGREE" % (k, by[k]))
     print("mismatches: %d" % len(mism))
     x.close()
     return 0 if not mism else 1
